@@ -6,10 +6,11 @@ from persim import bottleneck, wasserstein
 
 from ..core import Clause, close
 from ..oracles import matching as M
-from ..strategies import diagram_family, valid_family
+from ..strategies import dict_of, diagram_family, valid_family
 from ._dist import EMPTY_FORMS, as_input, call_quiet, coord_scale, pair_labels
 
 HASHSEEDS = "vary"
+FUZZ = ["bottleneck_matching", "wasserstein_matching"]
 RULE = ("Pairs of diagrams (0..8 points; lattice ties / ulp-perturbed / floats; duplicates, diagonal points, every empty form); "
         "validity predicate over the returned matching, no tie-break assumed; shards run under PYTHONHASHSEED 0..15.")
 ASSUMPTIONS = ["finite diagrams only (the statement quantifies over finite diagrams)",
@@ -86,7 +87,7 @@ def make_check(kind):
     return check
 
 
-s_pairs = st.fixed_dictionaries({
+s_pairs = dict_of({
     "fam": diagram_family(count=2, min_size=0, max_size=8, dup_bias=True),
     "ea": st.sampled_from(EMPTY_FORMS), "eb": st.sampled_from(EMPTY_FORMS), "as_list": st.sampled_from([False, False, True, "narrow"])})
 
